@@ -27,6 +27,7 @@ func main() {
 	gens := []gen{
 		{"RWMutexGen.v", genRWMutex},
 		{"ConstsGen.v", genConsts},
+		{"LockScriptsGen.v", genLockScripts},
 	}
 	failed := false
 	for _, g := range gens {
